@@ -165,10 +165,12 @@ class WorldGen(object):
             doc["definitions"] = dict(("d%d" % i, defs[i]) for i in range(k.ndefs) if homes[i] == u)
             docs[u] = doc
         store_docs = [u for u in self.doc_urls if rng.random() < k.store_rate]
+        # the caller may spell a store key with a trailing '#': it designates the same document
+        store_keys = dict((u, u + "#" if rng.random() < 0.4 else u) for u in store_docs)
         instances = [self.instance(k.inst_depth, top=True) for _ in range(k.ninstances)]
         return {
             "draft": self.draft, "root_url": self.root_url, "root": root, "docs": docs,
-            "store_docs": store_docs, "custom": self.custom, "formats": self.formats,
+            "store_docs": store_docs, "store_keys": store_keys, "custom": self.custom, "formats": self.formats,
             "homes": homes, "instances": instances, "reflog": self.reflog, "triggers": self.triggers,
         }
 
